@@ -293,8 +293,12 @@ func VP_C06_Transition() {
 	}
 	resp := &tmstate.ABCIResponses{BeginBlock: &abci.ResponseBeginBlock{}, EndBlock: &abci.ResponseEndBlock{},
 		DeliverTxs: []*abci.ResponseDeliverTx{{Code: 0, Data: []byte{1}}, {Code: uint32(vp.Range("tx-code", 0, 1)), GasUsed: 5}}}
-	if vp.Bool("parameter-update") {
-		resp.EndBlock.ConsensusParamUpdates = &abci.ConsensusParams{Block: &abci.BlockParams{MaxBytes: int64(vp.Range("max-bytes-kb", 1, 3)) * 1024 * 1024, MaxGas: -1}}
+	wantBytes, wantGas := st.ConsensusParams.Block.MaxBytes, st.ConsensusParams.Block.MaxGas
+	paramUpdate := vp.Bool("parameter-update")
+	if paramUpdate {
+		wantBytes = int64(vp.Range("max-bytes-kb", 1, 3)) * 1024 * 1024
+		wantGas = []int64{-1, 0, 7}[vp.Choice("max-gas", 3)] // every valid kind of value: unlimited, zero, a limit
+		resp.EndBlock.ConsensusParamUpdates = &abci.ConsensusParams{Block: &abci.BlockParams{MaxBytes: wantBytes, MaxGas: wantGas}}
 	}
 	cur := st
 	prevID, prevTime := id1, t1
@@ -334,6 +338,10 @@ func VP_C06_Transition() {
 		n1.AppHash, n2.AppHash = []byte{byte(h)}, []byte{byte(h)}
 		vp.Assert(bytes.Equal(n1.Bytes(), n2.Bytes()), "C06.transition.same-block-on-the-same-state-gives-byte-identical-next-states")
 		vp.Assert(n1.LastBlockHeight == h && n1.LastBlockID.Equals(id) && vpSameSet(n1.Validators, cur.NextValidators) && vpSameSet(n1.LastValidators, cur.Validators), "C06.transition.next-state-takes-over-height-id-and-validator-sets")
+		vp.Assert(n1.ConsensusParams.Block.MaxBytes == wantBytes && n1.ConsensusParams.Block.MaxGas == wantGas, "C06.transition.next-state-carries-exactly-the-block-parameters-the-application-set")
+		if paramUpdate {
+			vp.Assert(n1.LastHeightConsensusParamsChanged == 3, "C06.transition.parameter-change-is-recorded-for-the-height-it-takes-effect")
+		}
 		cur, prevID, prevTime = n1, id, block.Time
 	}
 	vp.Reach("three-blocks-applied")
